@@ -479,10 +479,20 @@ func (w *world) closeAll() {
 		sh.beginOp("")
 	}
 	for _, s := range w.secs {
-		func() {
+		if w.dead {
+			break // after a panic / crash / deadlock the secrets of this world are left alone
+		}
+		done := make(chan struct{})
+		go func(s *secT) {
+			defer close(done)
 			defer func() { recover() }()
 			s.s.Close()
-		}()
+		}(s)
+		select {
+		case <-done:
+		case <-time.After(5 * time.Second):
+			w.dead = true
+		}
 	}
 	// A failed protectedmemory creation leaves an object whose finalizer calls Close() on it at some
 	// later garbage collection (see the report: not modelled).  Pages such an orphan still owns in the
@@ -658,20 +668,33 @@ func (w *world) exec(line string) {
 		}
 	}
 	guard := func(fn func()) {
-		// a fault on a protected / unmapped page inside the code under test (or inside the reader
-		// callback) becomes a recoverable panic of this goroutine: an observation (`res=crash`), not a
-		// harness crash
-		defer debug.SetPanicOnFault(debug.SetPanicOnFault(true))
-		defer func() {
-			if e := recover(); e != nil {
-				o.res = "panic"
-				if re, ok := e.(runtime.Error); ok && (strings.Contains(re.Error(), "fault") || strings.Contains(re.Error(), "invalid memory address")) {
-					o.res = "crash"
+		// The operation runs in its own goroutine:
+		// * a fault on a protected / unmapped page inside the code under test (or inside the reader
+		//   callback) becomes a recoverable panic of that goroutine: an observation (`res=crash`), not a
+		//   harness crash;
+		// * an operation that never returns (e.g. a Close waiting for a reader count that a broken
+		//   access left behind) is reported as `res=deadlock` by a generous watchdog.
+		done := make(chan struct{})
+		go func() {
+			defer close(done)
+			defer debug.SetPanicOnFault(debug.SetPanicOnFault(true))
+			defer func() {
+				if e := recover(); e != nil {
+					o.res = "panic"
+					if re, ok := e.(runtime.Error); ok && (strings.Contains(re.Error(), "fault") || strings.Contains(re.Error(), "invalid memory address")) {
+						o.res = "crash"
+					}
+					w.dead = true
 				}
-				w.dead = true
-			}
+			}()
+			fn()
 		}()
-		fn()
+		select {
+		case <-done:
+		case <-time.After(5 * time.Second):
+			o = obs{res: "deadlock"}
+			w.dead = true
+		}
 	}
 	getSec := func(i int) *secT {
 		if i < 0 || i >= len(w.secs) {
